@@ -190,8 +190,12 @@ func compileOpts(c *Call) []compose.GraphCompileOption {
 	return o
 }
 
-// invoker runs a compiled runnable on snapshot input i and renders the outcome.
-type invoker func(i int) string
+// invoker runs a compiled runnable on snapshot input i and renders the outcome; root is the
+// runnable itself (for the structural snapshot).
+type invoker struct {
+	run  func(i int) string
+	root any
+}
 
 func guarded(f func(ctx context.Context) (any, error)) string {
 	ctx, cancel := context.WithTimeout(context.Background(), 2*time.Second)
@@ -219,20 +223,32 @@ func guarded(f func(ctx context.Context) (any, error)) string {
 	}
 }
 
-func invM(r compose.Runnable[M, M]) invoker {
-	return func(i int) string {
+func invM(r compose.Runnable[M, M]) *invoker {
+	return &invoker{func(i int) string {
 		return guarded(func(ctx context.Context) (any, error) { return r.Invoke(ctx, inputsM[i]) })
-	}
+	}, r}
 }
-func invWS(r compose.Runnable[WS, WS]) invoker {
-	return func(i int) string {
+func invWS(r compose.Runnable[WS, WS]) *invoker {
+	return &invoker{func(i int) string {
 		return guarded(func(ctx context.Context) (any, error) { return r.Invoke(ctx, inputsWS[i]) })
+	}, r}
+}
+
+// structure renders everything the compiled runnable keeps (its runner with node table, edge
+// slices incl. spare capacity, branch objects, the handler maps it shares with the builder, ...)
+// through the read-only hook compose/verif_c09.go; nil when the hook could not walk it.
+func structure(root any) []string {
+	var lines []string
+	var fail string
+	if p := lib.Recover(func() { lines, _, fail = compose.VerifC09Snapshot(root) }); p != nil || fail != "" {
+		return nil
 	}
+	return lines
 }
 
 // frontEnd applies one call; a successful Compile also yields an invoker.
 type frontEnd interface {
-	apply(c *Call) (error, invoker)
+	apply(c *Call) (error, *invoker)
 	snapshot() []string             // canonical state (snap.go)
 	pendingInputs() map[string]int  // Workflow: deferred inputs per node (nil otherwise)
 	pendingStatics() map[string]int // Workflow: static values not yet applied, per node (nil otherwise)
@@ -259,7 +275,7 @@ func newGraphFE(state bool) *graphFE {
 	return &graphFE{compose.NewGraph[M, M]()}
 }
 
-func (f *graphFE) apply(c *Call) (error, invoker) {
+func (f *graphFE) apply(c *Call) (error, *invoker) {
 	ctx := context.Background()
 	switch c.Op {
 	case "addnode":
@@ -298,7 +314,7 @@ func newChainFE(state bool) *chainFE {
 	return &chainFE{compose.NewChain[M, M]()}
 }
 
-func (f *chainFE) apply(c *Call) (error, invoker) {
+func (f *chainFE) apply(c *Call) (error, *invoker) {
 	ctx := context.Background()
 	switch c.Op {
 	case "append":
@@ -393,7 +409,7 @@ func mappings(fields []string) []*compose.FieldMapping {
 	return ms
 }
 
-func (f *wfFE) apply(c *Call) (error, invoker) {
+func (f *wfFE) apply(c *Call) (error, *invoker) {
 	ctx := context.Background()
 	switch c.Op {
 	case "addnode":
@@ -529,8 +545,9 @@ var compileTimeClass = map[string]bool{
 type compiled struct {
 	at   int    // index of the Compile call
 	opts string // its options
-	inv  invoker
+	inv  *invoker
 	snap []string // outputs on the snapshot inputs ("" = unstable, not compared)
+	shot []string // structural snapshot right after the Compile (nil = not available)
 }
 
 type execResult struct {
@@ -538,6 +555,7 @@ type execResult struct {
 	intact   bool   // every snapshot still holds after all later calls
 	recomp   string // "" or a description: a later Compile with the same options gives a different runnable
 	affected string // description of the first affected runner
+	nStruct  int    // runnables whose structure (everything they keep) was compared before / after the later calls
 }
 
 const nInputs = 3
@@ -552,7 +570,7 @@ func execute(c *Case, snapshot bool) execResult {
 	for i := range c.Calls {
 		call := &c.Calls[i]
 		var err error
-		var inv invoker
+		var inv *invoker
 		before := fe.pendingInputs()
 		sbefore := fe.pendingStatics()
 		p := lib.Recover(func() { err, inv = fe.apply(call) })
@@ -591,7 +609,7 @@ func execute(c *Case, snapshot bool) execResult {
 		if inv != nil && snapshot {
 			cr := &compiled{at: i, opts: optKey(call), inv: inv}
 			for k := 0; k < nInputs; k++ {
-				a, b := inv(k), inv(k)
+				a, b := inv.run(k), inv.run(k)
 				if a != b {
 					a = "" // the run itself is not deterministic: nothing to compare
 				}
@@ -609,6 +627,7 @@ func execute(c *Case, snapshot bool) execResult {
 					}
 				}
 			}
+			cr.shot = structure(inv.root)
 			runs = append(runs, cr)
 		}
 	}
@@ -617,9 +636,9 @@ func execute(c *Case, snapshot bool) execResult {
 			if cr.snap[k] == "" {
 				continue
 			}
-			now := cr.inv(k)
+			now := cr.inv.run(k)
 			for retry := 0; retry < 2 && now != cr.snap[k]; retry++ {
-				now = cr.inv(k) // a loaded machine can make one run hit the context deadline
+				now = cr.inv.run(k) // a loaded machine can make one run hit the context deadline
 			}
 			if now != cr.snap[k] {
 				res.intact = false
@@ -630,5 +649,34 @@ func execute(c *Case, snapshot bool) execResult {
 			}
 		}
 	}
+	// the same in structure: everything the runnable keeps is what it kept right after its Compile
+	for _, cr := range runs {
+		if cr.shot == nil {
+			continue
+		}
+		now := structure(cr.inv.root)
+		if now == nil {
+			continue
+		}
+		res.nStruct++
+		if d := firstDiff(cr.shot, now); d != "" {
+			res.intact = false
+			if res.affected == "" {
+				res.affected = fmt.Sprintf("runnable of Compile #%d: what it keeps changed after the later calls: %s", cr.at, d)
+			}
+		}
+	}
 	return res
+}
+
+func firstDiff(a, b []string) string {
+	for i := 0; i < len(a) && i < len(b); i++ {
+		if a[i] != b[i] {
+			return fmt.Sprintf("%q became %q", a[i], b[i])
+		}
+	}
+	if len(a) != len(b) {
+		return fmt.Sprintf("%d leaves became %d", len(a), len(b))
+	}
+	return ""
 }
